@@ -5,6 +5,7 @@ import AdfObdd.Drv.Ng
 import AdfObdd.Drv.Iter
 import AdfObdd.Drv.Stream
 import AdfObdd.Drv.Persist
+import AdfObdd.Drv.Http
 /-! Model driver: one request per line in, the request and the model's answers out.
     `= …` is the algorithmic model's answer, `~ …` the executable specification's. Lines
     starting with `=`, `~` (the implementation's answers) and `#` are skipped. -/
@@ -16,16 +17,23 @@ structure DS where
   ng : NgStoreSt := {}
   stream : StreamSt := {}
   persist : PersistSt := {}
+  web : Option HttpSt := none
   feats : List String := []
 
 def step (d : DS) (l : String) : List String × DS :=
   let ws := l.splitOn " "
   match ws with
-  | "case" :: _ => ([l], d)
+  | "case" :: _ =>
+    match httpStep {} l ws with
+    | some (out, w) => (out, { d with web := some w })
+    | none => ([l], { d with web := none })
   | "features" :: fs =>
     let exc := fs.contains "adhoccounting" && !fs.contains "adhoccountmodels"
     ([l], { d with feats := fs, bdd := { d.bdd with exception := exc } })
   | _ =>
+  match d.web.bind (fun w => httpStep w l ws) with
+  | some (out, w) => (out, { d with web := some w })
+  | none =>
   match bddStep d.bdd l ws with
   | some (out, b) => (out, { d with bdd := b })
   | none =>
